@@ -65,6 +65,9 @@ def _env(ip, frame, extra):
         env.update(f.locals)
     from .envb import Env
     env.update({'S': S, 'ghost': NS(ip.state.ghost), 'old': ip.entry_old, 'E': Env(ip)})
+    gf = gen_frame(frame)
+    if gf is not None:
+        env['_yields'] = gf.yields if isinstance(gf.yields, SymSeq) else PyList(gf.yields)
     env.update(ip.ctx.skolems)
     env.update(extra)
     return env
@@ -107,7 +110,21 @@ def assume_inv(ip, spec, frame, extra):
                     ip.ctx.assume(ops.bterm(_b(call_clause(fn, env2))))
 
 
+def gen_frame(frame):
+    f = frame
+    while f is not None and f.yields is None:
+        f = f.parent
+    return f
+
+
 def havoc(ip, node, frame, spec):
+    if spec.yields_kind is not None:
+        gf = gen_frame(frame)
+        cur = gf.yields
+        if not isinstance(cur, SymSeq):
+            base = SymSeq(z3.K(IntSort, I._default_of(spec.yields_kind.sort())), z3.IntVal(0), spec.yields_kind)
+            cur = base
+        gf.yields = fresh_like(ip, cur, 'yields')
     for name in sorted(body_assigned(node)):
         if name in frame.locals:
             cur = frame.locals[name]
